@@ -95,11 +95,57 @@ pub fn run_explicit<E: Elem>(trace: &ArrayTrace, mut j: Journal<'_>) -> RunOutco
     finish(eng, done, trace.flavour, trace.alloc_mode, v)
 }
 
+/// A run over giant zero-sized arrays: `steps` = explicit steps to execute first, then `extra`
+/// generated ones.
+pub fn run_giant(explicit: &[Step], rng: Option<&mut Rng>, extra: usize, mut j: Journal<'_>) -> RunOutcome {
+    journal_line(&mut j, "{\"header\":{\"flavour\":\"Giant\",\"alloc_mode\":0}}");
+    let mut g = crate::giant::Giant::new();
+    let mut done: Vec<Step> = Vec::new();
+    let mut viol = None;
+    for st in explicit {
+        journal_line(&mut j, &serde_json::to_string(st).unwrap());
+        done.push(st.clone());
+        if let Err(v) = g.step(st) {
+            viol = Some(v);
+            break;
+        }
+    }
+    if viol.is_none() {
+        if let Some(rng) = rng {
+            let first = crate::giant::gen_first(rng);
+            let mut next = Some(first);
+            for _ in 0..extra {
+                let st = match next.take() {
+                    Some(s) => s,
+                    None => {
+                        let (c, r) = crate::giant::dims(&g);
+                        crate::giant::gen_step(rng, c, r)
+                    }
+                };
+                journal_line(&mut j, &serde_json::to_string(&st).unwrap());
+                done.push(st.clone());
+                if let Err(v) = g.step(&st) {
+                    viol = Some(v);
+                    break;
+                }
+            }
+        }
+    }
+    let stats = std::mem::take(&mut g.stats);
+    RunOutcome { trace: ArrayTrace { flavour: Flavour::Giant, alloc_mode: 0, steps: done }, viol, stats, fault_runs: false }
+}
+
 pub fn run_explicit_dyn(trace: &ArrayTrace, j: Journal<'_>) -> RunOutcome {
+    if trace.flavour == Flavour::Giant {
+        return run_giant(&trace.steps, None, 0, j);
+    }
     match trace.flavour {
         Flavour::Tok => run_explicit::<Tok>(trace, j),
         Flavour::Cid => run_explicit::<Cid>(trace, j),
         Flavour::ZTok => run_explicit::<ZTok>(trace, j),
+        Flavour::Mov => run_explicit::<Mov>(trace, j),
+        Flavour::Fat => run_explicit::<Fat>(trace, j),
+        Flavour::Giant => unreachable!(),
     }
 }
 
